@@ -211,18 +211,59 @@ func build(t reflect.Type, s M, depth int) []reflect.Value {
 		var out []reflect.Value
 		// the zero value (no variant selected) is a value of the Go type too
 		zero := reflect.New(t).Elem()
+		// which variant schema belongs to which field: by shape first; what is left on both sides
+		// (formatted values: a date is a time.Time, a stringified int64 an int64) pairs up in order
+		assigned := map[string]M{}
+		used := map[int]bool{}
+		for _, v := range sum {
+			// a referenced component is the Go type of that name
+			if f, ok := t.FieldByName(v[1]); ok {
+				for ci, cand := range variants {
+					if ref, _ := cand["$ref"].(string); !used[ci] && ref != "" && strings.HasSuffix(ref, "/"+f.Type.Name()) {
+						assigned[v[1]] = cand
+						used[ci] = true
+						break
+					}
+				}
+			}
+		}
+		for _, v := range sum {
+			if assigned[v[1]] != nil {
+				continue
+			}
+			f, ok := t.FieldByName(v[1])
+			if !ok {
+				continue
+			}
+			for ci, cand := range variants {
+				if !used[ci] && compatible(f.Type, resolve(cand)) {
+					if _, formatted := resolve(cand)["format"]; formatted && f.Type.Kind() == reflect.String {
+						continue // a formatted string is not a plain Go string
+					}
+					assigned[v[1]] = cand
+					used[ci] = true
+					break
+				}
+			}
+		}
+		for _, v := range sum {
+			if _, ok := t.FieldByName(v[1]); !ok || assigned[v[1]] != nil {
+				continue
+			}
+			for ci, cand := range variants {
+				if !used[ci] {
+					assigned[v[1]] = cand
+					used[ci] = true
+					break
+				}
+			}
+		}
 		for _, v := range sum {
 			f, ok := t.FieldByName(v[1])
 			if !ok {
 				continue
 			}
-			var vs M
-			for _, cand := range variants {
-				if compatible(f.Type, resolve(cand)) {
-					vs = cand
-					break
-				}
-			}
+			vs := assigned[v[1]]
 			for _, fv := range build(f.Type, vs, depth+1) {
 				x := reflect.New(t).Elem()
 				x.FieldByName("Type").SetString(v[0])
@@ -329,7 +370,9 @@ func build(t reflect.Type, s M, depth int) []reflect.Value {
 		if depth < 4 {
 			ev = build(t.Elem(), es, depth+1)
 		}
-		key := func(k string) reflect.Value { return reflect.ValueOf(k).Convert(t.Key()) }
+		// members collected under a pattern (^literal) carry names the pattern matches
+		prefix, _ := s["x-verif-key-prefix"].(string)
+		key := func(k string) reflect.Value { return reflect.ValueOf(prefix + k).Convert(t.Key()) }
 		if len(ev) > 0 {
 			m := reflect.MakeMap(t)
 			m.SetMapIndex(key("a"), ev[0])
@@ -442,6 +485,19 @@ func buildStruct(t reflect.Type, s M, depth int) []reflect.Value {
 			fs, _ = props[tag].(M)
 		case f.Name == "AdditionalProps":
 			fs = M{"type": "object", "additionalProperties": s["additionalProperties"]}
+		case strings.HasPrefix(f.Name, "Pattern") && strings.HasSuffix(f.Name, "Props"):
+			// PatternNProps: the N-th pattern in document order (documents are written with sorted keys)
+			var n int
+			fmt.Sscanf(f.Name, "Pattern%dProps", &n)
+			pp, _ := s["patternProperties"].(M)
+			var pats []string
+			for p := range pp {
+				pats = append(pats, p)
+			}
+			sort.Strings(pats)
+			if n < len(pats) && strings.HasPrefix(pats[n], "^") {
+				fs = M{"type": "object", "additionalProperties": pp[pats[n]], "x-verif-key-prefix": pats[n][1:]}
+			}
 		}
 		var c []reflect.Value
 		if depth < 4 {
